@@ -11,7 +11,7 @@ LEAN_TARGETS = ['NdnProofs.Props.C09', 'NdnProofs.Props.C09Tables', 'NdnProofs.P
                 'NdnProofs.Props.ComponentGen', 'NdnProofs.Props.TlvVarGen', 'NdnGen.Component', 'NdnGen.TlvVar',
                 'NdnProofs.Props.NameGen', 'NdnGen.NameGen']
 THEOREMS = [
-    'Ndn.C09.decode_encode_name', 'Ndn.C09.normalize_wire',
+    'Ndn.C09.decode_encode_name', 'Ndn.C09.normalize_wire', 'Ndn.C09.decode_accepts_exact', 'Ndn.C09.decode_overrun_rejected',
     'Ndn.C09.isPrefix_iff', 'Ndn.C09.isPrefix_iff_componentwise',
     'Ndn.C09.unescape_escape', 'Ndn.C09.fromStr_toCanonicalUri', 'Ndn.C09.getType_getValue',
     'Ndn.C09.fromStr_toStr', 'Ndn.C09.toStr_total', 'Ndn.C09.fromStr_toStr_oddwidth', 'Ndn.C09.fromStr_shorthand_number', 'Ndn.C09.fromStr_shorthand_digest',
@@ -37,14 +37,14 @@ THEOREMS = [
     # fold, for = Py.forEach, while = recursion on fuel) = the model functions (Ndn.Name.*), for all inputs
     'Ndn.NameGen.all_translated', 'Ndn.NameGen.encoded_length_eq', 'Ndn.NameGen.is_prefix_core_eq',
     'Ndn.NameGen.encode_eq', 'Ndn.NameGen.encode_eq_empty', 'Ndn.NameGen.encode_into_eq', 'Ndn.NameGen.decode_eq', 'Ndn.NameGen.decode_error_class', 'Ndn.NameGen.decode_fuel_suffices',
-    'Ndn.NameGen.decode_error_of_model', 'Ndn.NameGen.decode_ok_model',
+    'Ndn.NameGen.decode_error_of_model', 'Ndn.NameGen.decode_ok_model', 'Ndn.NameGen.decode_ok_of_model',
 ]
 PARTIAL = {}
 TRUSTED = [
     'C09: Python str is modelled as a list of Unicode scalar values (no lone surrogates); str.encode() is Lean String.utf8EncodeChar',
     'C09: int(s) / int(s,16) / bytearray.fromhex are modelled on strings over Component.CHARSET only (the code rejects any other character first); the CPython 4300-digit limit of int() is modelled with its default value',
     'C09: component values and names shorter than 2^64 bytes (struct.pack would raise otherwise); Component.from_bytes is modelled for typ >= 0',
-    'C09: Name.decode is modelled as the code is (a component overrunning the Name Length is accepted - finding F3 of property C07); on such inputs the correspondence accepts the modelled answer or a rejection',
+    'C09: Name.decode is modelled as the code is since the repair of finding F3: a component whose extent exceeds what is left of the declared Length of the Name raises IndexError before it is appended (Ndn.Name.decodeLoop has the test where the source has it); model and implementation must agree on such wires like on any other (no tolerance in the correspondence)',
     'C09 (Component.py, tlv_var.py byte-level helpers): get_type, get_value, to_number, from_bytes, from_number, from_segment / '
     'byte_offset / version / timestamp / sequence_num and the tlv_var.py functions they call are translated from the source '
     'text by harness/py2lean.py (a compositional translator for a delimited subset of Python; anything outside it is '
@@ -55,8 +55,8 @@ TRUSTED = [
     'from the source text by harness/py2lean.py (reduce(lambda) = a left fold, `for comp in name` = Py.forEach, the `while` '
     'loop of decode = recursion on a fuel argument whose bound `length + 1` is DECLARED by the request and proved never to '
     'be exhausted) and proved equal to Ndn.Name.* for all inputs (encode: fresh buffer, empty buffer passed, and into a '
-    'caller-supplied buffer at an offset; decode at offset 0: Ndn.Name.decode followed by the check the source has since the '
-    'repair of finding F3 - bytes consumed = header + declared Length, else IndexError - which the model loop does not make); '
+    'caller-supplied buffer at an offset; decode at offset 0: plain equality with Ndn.Name.decode, the IndexError of a component '
+    'that overruns the declared Length included); '
     'trusted there, besides the translator and PySem.lean: '
     'that a FormalName argument is a list of byte strings which the call does not change meanwhile, and - declared by the '
     'request, stated in the generated file - that Name.normalize returns an equal list on an argument that already is a '
@@ -70,7 +70,7 @@ RULE = ('names of 0..8 components, types from {1,2,8,32,50,52,54,56,58,252,253,6
         '(every Latin-1 supplement character, the code points on the UTF-8 width boundaries U+007F/80, U+07FF/800, U+D7FF/E000, '
         'U+FFFF/10000, U+10FFFF, random scalars of every width); second use: every constructor asked twice with the caller '
         'overwriting the first (mutable) result or its argument buffer in between; '
-        'typed numbers 0..2^64-1 and just outside; well-formed and damaged Name wires; pairs of related names for is_prefix and for '
+        'typed numbers 0..2^64-1 and just outside; well-formed and damaged Name wires; Name wires whose Length ends strictly inside a component (after 0..3 whole components; the component wholly inside the buffer, ending with it, or cut by it) - decode and normalize must raise IndexError, and whatever decode accepts must tile the declared Length exactly with whole components; pairs of related names for is_prefix and for '
         'byte order versus an independent (type, length, value) comparison; names whose total Length and components whose '
         'own Length sit on 252/253 and 65535/65536 (1- and 3-byte Type numbers); oracle-only observations on the other '
         'front-ends of the same conversions (to_bytes/from_bytes, decode/encode at a non-zero offset, encoded_length, '
@@ -385,6 +385,26 @@ def _wire(rng):
     return bytes(w).hex()
 
 
+def _overrun_wire(rng, mode=None):
+    """a Name TLV whose Length ends strictly inside one of its components (after 0..3 whole ones); the overrunning
+    component lies wholly inside the buffer (more bytes follow the declared Length), is cut by the end of the buffer,
+    or ends exactly with the buffer"""
+    whole = [_gen_comp(t, bytes.fromhex(v)) for t, v in _name(rng, 0, 3)]
+    t, vh = _comp(rng)
+    last = _gen_comp(t, bytes.fromhex(vh))
+    after = b''.join(_gen_comp(t2, bytes.fromhex(v2)) for t2, v2 in _name(rng, 0, 2))
+    pre = b''.join(whole)
+    cut = rng.randint(1, len(last) - 1)                  # the Length ends `cut` bytes into the last component
+    mode = mode or rng.choice(['inside', 'inside', 'exact', 'short'])
+    if mode == 'inside':
+        tail = last + (after or b'\x08\x00')
+    elif mode == 'exact':
+        tail = last
+    else:                                                # the buffer ends inside the component, at or after the Length
+        tail = last[:rng.randint(cut, len(last) - 1)]
+    return (b'\x07' + _gen_tl(len(pre) + cut) + pre + tail).hex()
+
+
 def _sized_name(rng, total, ncomp):
     """a name whose components' encodings add up to exactly `total` bytes (the Length of the Name TLV)"""
     out, left = [], total
@@ -476,6 +496,12 @@ def cases(rng, tier):
         yield {'k': 'num', 'n': _number(rng) if rng.random() < 0.9 else rng.choice([-1, -2, 2**64, 2**64 + 5]), 'typ': rng.choice(NUM_TYPES)}
     for _ in range(150 * k):
         yield {'k': 'wire', 'w': _wire(rng)}
+    for mode in ('inside', 'exact', 'short'):
+        yield {'k': 'wire', 'w': _overrun_wire(rng, mode)}
+    yield {'k': 'wire', 'w': '0703080261620800'}         # Length 3, a 4-byte component inside the buffer, then 08 00
+    yield {'k': 'wire', 'w': '07030801610802'}           # Length 3: one whole component, then one byte of the next
+    for _ in range(40 * k):
+        yield {'k': 'wire', 'w': _overrun_wire(rng)}
     for _ in range(6 * k):
         base = _name(rng, 0, 4)
         pool = [base] + [_mutate_name(rng, base) for _ in range(9)]
@@ -796,25 +822,11 @@ def model_line(case, impl):
     return 'C09 ' + ' '.join(impl['ops']) if impl['ops'] else None
 
 
-_REJECT_OK = ('err=IndexError', 'err=ValueError', 'err=DecodeError')
-
-
 def model_obs(answer, case, impl):
+    """the model's answers as they are: model and implementation must agree on every op (also on a Name wire one of
+    whose components overruns the declared Length: both raise IndexError)"""
     toks = answer.split(' ')
-    out = []
-    for op, tok, itok in zip(impl['ops'], toks, impl['res']):
-        if op.startswith('dec:') and tok.startswith('ok='):
-            flag = tok[-2:]
-            tok = tok[:-2]
-            # a component overrunning the Name's Length: what the code does today is accepted (C07 / F3 territory),
-            # a repaired tree rejecting it is accepted as well
-            if flag == '@o' and itok in _REJECT_OK:
-                tok = itok
-        if op.startswith('nrw:') and itok in _REJECT_OK and tok.startswith('ok='):
-            d = [t for o, t in zip(impl['ops'], toks) if o == 'dec:' + op[4:]]
-            if d and d[0].endswith('@o'):
-                tok = itok
-        out.append(tok)
+    out = list(toks)
     if len(toks) != len(impl['ops']):
         out.append('answer-count-mismatch')
     return out
@@ -894,6 +906,89 @@ def _name_side_oracle(comps, L, D, want, wlen):
             return 'is_prefix(wire of n[:j], wire of n) is not True'
         if lab.startswith('erp_w_') and tok != ('ok=True' if int(lab[6:]) == n else 'ok=False'):
             return 'is_prefix(wire of n, n[:j]) disagrees with component-wise equality'
+    return None
+
+
+def _rd_tl(b, off):
+    """the oracle's own TL-number reader: (value, size) or None when the number does not lie inside `b`"""
+    if off >= len(b):
+        return None
+    x = b[off]
+    n = {253: 2, 254: 4, 255: 8}.get(x, 0)
+    if n == 0:
+        return x, 1
+    if off + 1 + n > len(b):
+        return None
+    return int.from_bytes(b[off + 1:off + 1 + n], 'big'), 1 + n
+
+
+def _wire_shape(w):
+    """what the bytes say, read independently of the library: ('overrun', where) when the wire is a Name TLV whose
+    Length lies inside the buffer and ends strictly inside a component whose Type and Length can be read;
+    ('name', header size, Length) for any other wire starting with a readable Name header; ('other',) otherwise"""
+    t = _rd_tl(w, 0)
+    if t is None or t[0] != 7:
+        return ('other',)
+    ln = _rd_tl(w, t[1])
+    if ln is None:
+        return ('other',)
+    hdr, left = t[1] + ln[1], ln[0]
+    if left > len(w) - hdr:
+        return ('name', hdr, ln[0])
+    off = hdr
+    while left > 0:
+        ct = _rd_tl(w, off)
+        cl = _rd_tl(w, off + ct[1]) if ct is not None else None
+        if cl is None:
+            return ('name', hdr, ln[0])
+        ext = ct[1] + cl[1] + cl[0]
+        if ext > left:
+            return ('overrun', 'inside-buffer' if off + ext < len(w) else 'to-buffer-end' if off + ext == len(w) else 'past-buffer')
+        off += ext
+        left -= ext
+    return ('name', hdr, ln[0])
+
+
+def _wire_oracle(w, L):
+    """the component list and the wire must say the same thing: whatever Name.decode accepts is a Name TLV whose
+    components are whole TLVs that tile exactly the declared Length; a Length that ends inside a component is an
+    IndexError; Name.normalize of the wire agrees with Name.decode"""
+    dec, nrw = L.get('dec'), L.get('nrw')
+    shape = _wire_shape(w)
+    if shape[0] == 'overrun':
+        if dec != 'err=IndexError':
+            return 'Name.decode does not raise IndexError on a Name whose Length ends inside a component'
+        if nrw != 'err=IndexError':
+            return 'Name.normalize(wire) does not raise IndexError on a Name whose Length ends inside a component'
+        return None
+    if not _ok(dec):
+        if _ok(nrw):
+            return 'Name.normalize(wire) accepts a wire Name.decode rejects'
+        return None
+    if shape[0] != 'name':
+        return 'Name.decode accepts a wire that does not start with a readable Name Type and Length'
+    names, used = dec[3:].rsplit('@', 1)
+    comps = _unnm(names)
+    hdr, ln = shape[1], shape[2]
+    if int(used) != hdr + ln:
+        return 'Name.decode: bytes consumed != header + declared Length'
+    if hdr + ln > len(w):
+        return 'Name.decode accepts a Name whose Length runs past the buffer'
+    if b''.join(bytes(c) for c in comps) != w[hdr:hdr + ln]:
+        return 'Name.decode: the components joined are not the declared Length bytes of the wire'
+    for c in comps:
+        c = bytes(c)
+        ct = _rd_tl(c, 0)
+        cl = _rd_tl(c, ct[1]) if ct is not None else None
+        if cl is None or ct[1] + cl[1] + cl[0] != len(c):
+            return 'Name.decode returns a component that is not one whole TLV'
+    if nrw != 'ok=' + names:
+        return 'Name.normalize(wire) != the components Name.decode returns'
+    enc = L.get('enc')
+    if not _ok(enc):
+        return 'Name.encode fails on the components Name.decode returned'
+    if bytes.fromhex(enc[3:])[1:] != _gen_tl(ln) + w[hdr:hdr + ln]:
+        return 'Name.encode(Name.decode(wire)) is not Type 7, the shortest-form Length and the same component bytes'
     return None
 
 
@@ -1028,7 +1123,7 @@ def oracle(case, impl):
                     return f"Name.from_str('/a/{short}=n') does not end with the type-{typ} component of n"
         return None
     if k == 'wire':
-        return None
+        return _wire_oracle(bytes.fromhex(case['w']), L)
     return None
 
 
@@ -1062,6 +1157,9 @@ def tags(case, impl):
         t.append('name-uri:' + L['nfs'][:3] + ('' if _ok(L['nfs']) else L['nfs'][3:]))
     elif k == 'wire':
         t.append('decode:' + (L['dec'][:2] if _ok(L['dec']) else L['dec']))
+        shape = _wire_shape(bytes.fromhex(case['w']))
+        if shape[0] == 'overrun':
+            t.append('component-overruns-name-length:' + shape[1])
     elif k == 'pair':
         t.append('prefix:' + L.get('pre_ab', '?')[3:] + L.get('pre_ba', '?')[3:])
     elif k == 'num':
@@ -1078,6 +1176,7 @@ def finding_key(case, impl, why):
 LEVEL_TEXT = ('Lean 4 theorems over a hand-written model of Component.{from_bytes,from_str,to_str,to_canonical_uri,escape_str,'
               'from_number,get_type,get_value} and Name.{from_str,to_str,to_canonical_uri,encode,decode,normalize,is_prefix}: '
               'wire and URI round trips for every name (any number of components, types 1..65535, arbitrary value bytes), the '
+              'for every byte string what Name.decode accepts is Type 7, a Length inside the buffer and whole components that tile exactly that Length (decode_accepts_exact), a Length ending inside a component is IndexError (decode_overrun_rejected), the '
               'shorthand URI round trip under the canonical-number hypothesis (with the counterexample showing why), agreement of all '
               'accepted input forms, is_prefix = list prefix, and byte order = NDN canonical order from write_lex_mono. The model is '
               'tied to the code on every run by differential execution of the compiled model against the real functions, plus the '
